@@ -16,6 +16,12 @@ def main():
     a = ap.parse_args()
     seed = int(os.environ.get("VERIF_SEED", "0") or 0)
     tier = a.tier if a.tier in ("quick", "thorough") else "quick"
+    if a.pid != "C19":
+        try:   # tiny arrays: more threads only spin
+            import numba
+            numba.set_num_threads(int(os.environ.get("VERIF_NUMBA_THREADS", "2")))
+        except Exception:
+            pass
     mod = importlib.import_module(f"props.{a.pid.lower()}")
     R = vlib.Run(a.pid, tier, seed, replay=a.replay)
     try:
